@@ -33,6 +33,8 @@ type Ctx struct {
 	treeReads map[string]bool // components read by recursive spec definitions
 	inTree int
 	globalHook func(name string) (*Term, bool)
+	fuel       int             // 0 = default
+	unfoldOnly map[string]bool // nil = every recursive definition
 }
 
 func NewCtx(enc *Enc, spec *Spec, unit string) *Ctx {
@@ -164,6 +166,17 @@ func (cx *Ctx) ResolveType(name string) (string, types.Type) {
 	if a, ok := cx.spec.aliases[name]; ok {
 		return cx.ResolveType(a)
 	}
+	if strings.HasPrefix(name, "map[") {
+		j := strings.IndexByte(name, ']')
+		_, kt := cx.ResolveType(name[len("map["):j])
+		_, vt := cx.ResolveType(name[j+1:])
+		if kt == nil || vt == nil {
+			efail("unknown map type %s", name)
+		}
+		T := types.NewMap(kt, vt)
+		enc.mapComp(T)
+		return SInt, T
+	}
 	if strings.HasPrefix(name, "mapval[") {
 		j := strings.IndexByte(name, ']')
 		ks, kt := cx.ResolveType(name[len("mapval["):j])
@@ -173,6 +186,11 @@ func (cx *Ctx) ResolveType(name string) (string, types.Type) {
 			gt = mapValT{types.NewMap(kt, vt)}
 		}
 		return enc.MapSort(ks, vs), gt
+	}
+	if obj := enc.tpkg.Scope().Lookup(name); obj != nil {
+		if tn, ok := obj.(*types.TypeName); ok {
+			return enc.SortOf(tn.Type()), tn.Type()
+		}
 	}
 	if _, ok := enc.dts[name]; ok {
 		return name, nil
@@ -507,7 +525,7 @@ func (env *Env) index(x, i *Term) *Term {
 		env.want(i, SInt)
 		c := enc.cellsComp(es)
 		arr := Select(env.comp(c.Name), enc.Sel("sl_arr", x))
-		return Select(arr, Add(enc.Sel("sl_off", x), i)).WithT(et)
+		return Select(arr, i).WithT(et)
 	}
 	if _, ok := under(x.T).(*types.Map); ok || strings.HasPrefix(x.Sort, "Map_") {
 		mv := env.mapValue(x)
